@@ -151,9 +151,14 @@ def run(ctx, proofs):
     # ---- the hypothesis of C12_lift_never_panics on real desugared bodies (third audit) ----
     hyp = {"evaluated": 0, "desugared_shape": 0, "parser_shaped": 0, "not_evaluated": 0}
     hyp_bad = []
+    # fourth audit: the sample used to be the FIRST 1 500 sources (never c18matrix / c18deep, where the tuple declarations
+    # live): all of c18matrix / c18deep / the skeleton templates with deep nests, and a seeded sample of the rest
+    pool = liftfull_engine.gen_programs(ctx.rng, quick)
+    always = [p for p in pool if p[0].startswith(("c18matrix", "c18deep", "tdeepnest"))]
+    rest = [p for p in pool if p[0].startswith(("c18rand", "proggen", "targeted", "tshape", "trandshape"))]
+    ctx.rng.shuffle(rest)
     rows, statuses = liftfull_engine.flags_for_sources(
-        common, [("fixed/" + k, s) for k, s in liftfull_engine.FIXED] + corpus_sources("C12")
-        + [(lab, s) for lab, s in liftfull_engine.gen_programs(ctx.rng, quick) if lab.startswith(("c18", "proggen", "targeted"))][:1500])
+        common, [("fixed/" + k, s) for k, s in liftfull_engine.FIXED] + corpus_sources("C12") + always + rest[:1300])
     seen_defs = set()
     for row in rows:
         if row["def"] in seen_defs:
@@ -185,9 +190,33 @@ def run(ctx, proofs):
     if hyp["evaluated"] == 0:
         ctx.violation("degenerate run: desugared_shape, the hypothesis of C12_lift_never_panics, was evaluated on no real body",
                       {"broken": "evaluation of the hypothesis desugared_shape", "statuses": dict(statuses)}, no_input=True)
-    if tstage["stats"].get("graphs_checked", 0) == 0:
-        ctx.violation("degenerate run: the template stage of C12 checked no graph",
-                      {"broken": "coverage of the check: template stage", "stats": tstage["stats"]}, no_input=True)
+    if tstage["stats"].get("graphs_checked", 0) == 0 or tstage["tie"].get("pairs_evaluated", 0) == 0:
+        ctx.violation("degenerate run: the template stage of C12 checked no graph / evaluated the round-4 theorems on no pair",
+                      {"broken": "coverage of the check: template stage", "stats": tstage["stats"], "tie": tstage["tie"]},
+                      no_input=True)
+    # fourth audit: floors of the template generator (bare bodies, `else if`, nested / empty blocks, deep loop nests in
+    # TEMPLATES) and of into_ssa (an `error` of into_ssa is skipped by the clauses: counted, at most a fifth)
+    if tstage["floors_missed"]:
+        ctx.violation("degenerate run: the template generator of C12 produced too few templates with: %s" % tstage["floors_missed"],
+                      {"broken": "coverage of the check: floors of the template generator", "floors": tstage["floors"]},
+                      no_input=True)
+    n_ssa_err = tstage["stats"].get("into_ssa: error", 0)
+    if 5 * n_ssa_err > tstage["stats"].get("distinct_definitions", 0):
+        ctx.violation("degenerate run: into_ssa answers an error on %d of %d definitions (more than a fifth): the graph after "
+                      "into_ssa is checked on the rest only" % (n_ssa_err, tstage["stats"].get("distinct_definitions", 0)),
+                      {"broken": "coverage of the check: into_ssa errors", "stats": tstage["stats"]}, no_input=True)
+    # fourth audit: the check's own identity clause (a statement is named by its span: every source statement exactly once,
+    # in source order - C12_every_item_exactly_once about the mirror) is no clause of the property text.  When it is the ONLY
+    # thing that fails on a definition (every clause of the text, the depth clause by span containment included, the
+    # decisions cfg_wf / ssa_shape_of and the accessors hold), the lifting changed shape without a failing input
+    identity = tstage["identity"]
+    if identity and not tfailing:
+        ctx.violation("the statements of %d real graphs are not, span for span and in source order, the statements of the "
+                      "desugared body (e.g. a meta taken from another node, one statement lifted to two), while every clause of "
+                      "the property text holds on every explored graph: shape changed, no failing input found (first: %s)"
+                      % (len(identity), identity[0]["clause"]),
+                      {"broken": "statement identity by span (C12_loop_depth_is_nesting / C12_every_item_exactly_once as list "
+                                 "equalities on the real graph)", "first": identity[0], "count": len(identity)}, no_input=True)
     if not failing and not tfailing and not hyp_bad:
         if disagreements:
             d = disagreements[0]
@@ -232,6 +261,23 @@ def run(ctx, proofs):
             "programs": tstage["programs"], "stats": tstage["stats"], "definition_kinds": tstage["kinds"],
             "definitions_with_feature": tstage["features"], "by_generator": tstage["by_generator"],
             "failures": len(tfailing),
+            "identity_clause_only_failures": len(identity),
+            "skeleton_templates": dict(tstage["template_skeleton_features"],
+                                       rule="skeletons (all with <= 5 / 6 nodes, random ones up to 60 nodes, nests of 1..12 loops) "
+                                            "rendered as TEMPLATES with signal / component declarations, `<==`, `<--`, `===`, assert, "
+                                            "log at the leaves; counted per distinct template by the features of its skeleton"),
+            "floors": tstage["floors"],
+            "round4_theorems_on_real_graphs": dict(
+                tstage["tie"],
+                rule="per distinct definition that lifts: the REAL graphs with their statements before and after into_ssa (harness "
+                     "mode c12, irdump) through the extracted decision procedures: SsaPre.phi_free before (hypothesis of "
+                     "C12_ssa_blocks_are_phis_then_image / _ssa_keeps_wf), IrCfgCheck.cfg_wf_b before and after (C12_lifted_graph_wf, "
+                     "C12_lifted_ssa_graph_wf; sound for IrCfgSpec.cfg_wf by C12_cfg_wf_b_sound), IrCfgCheck.ssa_shape_b before after "
+                     "(IrCfgSpec.ssa_shape_of: same frames, phi assignments ++ same-kind image, one for one; "
+                     "C12_ssa_shape_b_sound); every 0 is a violation with the source as input"),
+            "complexity_pass": "the REAL definition_complexity.rs pass runs on every SSA graph (through get_analysis_passes) and its "
+                               "CS0011 decision is compared with `2 + edges - nodes > 20` computed from the block list (part of the "
+                               "accessor field: a mismatch is a violation with input)",
         },
         "hypothesis_desugared_shape": dict(hyp, rule="C12_lift_never_panics assumes desugared_shape of the body; evaluated by the "
                                                      "extracted decision (LiftFull.is_block && LiftFull.ast_init_flat, "
@@ -258,8 +304,8 @@ def run(ctx, proofs):
         "characterised by membership only (complete_spec / back_fold in Proofs.LiftInv), the implementation is observed "
         "with its real random hash order",
         "definition_complexity.rs computes (2 + edges) - nodes on usize: C12_complexity_no_underflow proves nodes <= 1 + edges "
-        "for every lifted graph (from C12_descending_path); that the pass adds up exactly successors().len() per block is read "
-        "off the source, the pass itself is not mirrored",
+        "for every lifted graph (from C12_descending_path); the pass itself is not mirrored, its CS0011 decision is compared with "
+        "the formula on every SSA graph of the template stage (fourth audit)",
         "a leaf of a rendered skeleton is identified by the number literal of its lifted expression; when that expression holds "
         "no or several literals the harness falls back on the only number literal in the SOURCE TEXT of the node "
         "(lift.rs span_number); items without id are counted (`items_without_id`)",
